@@ -331,4 +331,1058 @@ theorem invT_step (v : Variant) (s s' : St) (e : Ev) (hL : InvL s) (hI : InvT v 
     all_goals (refine ⟨?_, ?_, ?_⟩ <;> (try intro g' hg') <;> (try simp only [upd, flSum] at *) <;>
       grind [Pc.carry, afterNext])
 
+/-! ### M: the sleepers tree, the group being woken and the sleeping fibers' pcs agree -/
+
+def ids (t : Tree) : List Nat := t.toList.map (·.1)
+def Pc.inTree : Pc → Bool
+  | .inserted | .owner | .parkedL | .parked => true
+  | _ => false
+def Pc.walking : Pc → Bool
+  | .gotNode .. | .gotNext .. | .sched .. | .needNode .. => true
+  | _ => false
+
+def InvM (s : St) : Prop :=
+  (ids s.tree ++ s.cur).Nodup ∧
+  (∀ x ∈ s.tree.toList, s.wake x.1 = x.2 ∧ (s.pc x.1).inTree = true ∧ x.1 ≠ 0) ∧
+  (∀ m ∈ s.cur, s.wake m = s.curW ∧ s.pc m = .parked ∧ m ≠ 0) ∧
+  (s.cur ≠ [] → s.curW < s.ttc ∧ ∃ g, s.holder = some g ∧ (s.pc g).walking = true) ∧
+  Ordered s.tree
+
+theorem invM_init : InvM init := by
+  refine ⟨by simp [init, ids, toList], ?_, ?_, ?_, by simp [init, Ordered]⟩ <;> simp [init, toList]
+
+theorem invM_same {s : St} (hI : InvM s) (s' : St)
+    (e1 : s'.tree = s.tree) (e2 : s'.cur = s.cur) (e3 : s'.curW = s.curW) (e4 : s'.wake = s.wake)
+    (e5 : s'.ttc = s.ttc) (e6 : s'.holder = s.holder) (e7 : s'.pc = s.pc) : InvM s' := by
+  unfold InvM; rw [e1, e2, e3, e4, e5, e6, e7]; exact hI
+
+theorem invM_frame {s : St} (hI : InvM s) (s' : St) (g : Nat) (p' : Pc)
+    (e1 : s'.tree = s.tree) (e2 : s'.cur = s.cur) (e3 : s'.curW = s.curW) (e4 : s'.wake = s.wake)
+    (e5 : s.cur ≠ [] → s.ttc ≤ s'.ttc) (e6 : s.cur ≠ [] → s'.holder = s.holder)
+    (e7 : s'.pc = upd s.pc g p')
+    (c1 : (s.pc g).inTree = true → p'.inTree = true)
+    (c2 : s.pc g ≠ .parked)
+    (c3 : (s.pc g).walking = true → p'.walking = true ∨ s.cur = []) : InvM s' := by
+  obtain ⟨m1, m2, m3, m4, m5⟩ := hI
+  refine ⟨by rw [e1, e2]; exact m1, ?_, ?_, ?_, by rw [e1]; exact m5⟩
+  · intro x hx
+    rw [e1] at hx
+    have := m2 x hx
+    rw [e4, e7]
+    refine ⟨this.1, ?_, this.2.2⟩
+    by_cases hxg : x.1 = g
+    · simp only [upd, hxg, if_true]; apply c1; rw [← hxg]; exact this.2.1
+    · simp only [upd, hxg, if_false]; exact this.2.1
+  · intro m hm
+    rw [e2] at hm
+    have := m3 m hm
+    rw [e4, e3, e7]
+    refine ⟨this.1, ?_, this.2.2⟩
+    have : m ≠ g := by intro h; subst h; exact c2 this.2.1
+    simp only [upd, this, if_false]; exact (m3 m hm).2.1
+  · intro hc
+    rw [e2] at hc
+    obtain ⟨h1, g0, h2, h3⟩ := m4 hc
+    rw [e3, e6 hc, e7]
+    refine ⟨Nat.lt_of_lt_of_le h1 (e5 hc), g0, h2, ?_⟩
+    by_cases hg : g0 = g
+    · subst hg; simp only [upd, if_true]
+      rcases c3 h3 with h | h
+      · exact h
+      · exact absurd h hc
+    · simp only [upd, hg, if_false]; exact h3
+
+/-- the group being woken is abandoned (as found, after a stale read) -/
+theorem invM_clear {s : St} (hI : InvM s) (s' : St) (g : Nat) (p' : Pc)
+    (e1 : s'.tree = s.tree) (e2 : s'.cur = []) (e4 : s'.wake = s.wake)
+    (e7 : s'.pc = upd s.pc g p')
+    (c1 : (s.pc g).inTree = false) : InvM s' := by
+  obtain ⟨m1, m2, m3, m4, m5⟩ := hI
+  refine ⟨?_, ?_, by rw [e2]; simp, by rw [e2]; simp, by rw [e1]; exact m5⟩
+  · rw [e1, e2]; simp; exact (List.nodup_append.mp m1).1
+  · intro x hx
+    rw [e1] at hx
+    have := m2 x hx
+    rw [e4, e7]
+    refine ⟨this.1, ?_, this.2.2⟩
+    have hxg : x.1 ≠ g := by intro h; rw [h] at this; simp [c1] at this
+    simp only [upd, hxg, if_false]; exact this.2.1
+
+/-- a holder that is not walking a chain means no chain is being walked -/
+theorem cur_nil_of_holder {s : St} (hL : InvL s) (hI : InvM s) {g : Nat}
+    (hh : (s.pc g).holds = true) (hw : (s.pc g).walking = false) : s.cur = [] := by
+  apply Classical.byContradiction
+  intro hc
+  obtain ⟨_, g0, h2, h3⟩ := hI.2.2.2.1 hc
+  have := hL.1 g hh
+  rw [this] at h2; simp at h2; subst h2
+  rw [hw] at h3; simp at h3
+
+theorem cur_nil_of_free {s : St} (hI : InvM s) (hh : s.holder = none) : s.cur = [] := by
+  apply Classical.byContradiction
+  intro hc
+  obtain ⟨_, g0, h2, _⟩ := hI.2.2.2.1 hc
+  rw [hh] at h2; simp at h2
+
+theorem ids_insert_perm (t : Tree) (f wt : Nat) : (ids (insert t f wt)).Perm (f :: ids t) := by
+  have := (insert_toList_perm t f wt).map (·.1)
+  simpa [ids] using this
+
+theorem invM_insert {s : St} (hL : InvL s) (hI : InvM s) (s' : St) (f wt : Nat)
+    (hpc : s.pc f = .inserting) (hf : f ≠ 0)
+    (e1 : s'.tree = insert s.tree f wt) (e2 : s'.cur = s.cur) (_e3 : s'.curW = s.curW)
+    (e4 : s'.wake = upd s.wake f wt) (_e5 : s'.ttc = s.ttc) (_e6 : s'.holder = s.holder)
+    (e7 : s'.pc = upd s.pc f .inserted) : InvM s' := by
+  have hcur := cur_nil_of_holder hL hI (g := f) (by simp [hpc, Pc.holds]) (by simp [hpc, Pc.walking])
+  obtain ⟨m1, m2, m3, m4, m5⟩ := hI
+  have hnot : f ∉ ids s.tree := by
+    intro hm
+    simp only [ids, List.mem_map] at hm
+    obtain ⟨x, hx, rfl⟩ := hm
+    have := (m2 x hx).2.1
+    simp [hpc, Pc.inTree] at this
+  refine ⟨?_, ?_, by rw [e2, hcur]; simp, by rw [e2, hcur]; simp, by rw [e1]; exact insert_ordered f wt m5⟩
+  · rw [e1, e2, hcur]; simp
+    rw [(ids_insert_perm s.tree f wt).nodup_iff]
+    rw [hcur] at m1; simp at m1
+    exact List.nodup_cons.mpr ⟨hnot, m1⟩
+  · intro x hx
+    rw [e1] at hx
+    rw [e4, e7]
+    rcases mem_insert_toList.mp hx with rfl | hx
+    · simp [upd, Pc.inTree, hf]
+    · have := m2 x hx
+      have hxf : x.1 ≠ f := by
+        intro h; apply hnot; simp only [ids, List.mem_map]; exact ⟨x, hx, h⟩
+      simp only [upd, hxf, if_false]; exact this
+
+theorem ids_group (i w : Nat) (c : List Nat) : (group i w c).map (·.1) = i :: c := by
+  simp [group, Function.comp_def]
+
+theorem invM_remove {s : St} (hL : InvL s) (hI : InvM s) (s' : St) (g i w : Nat) (c : List Nat)
+    (t' : Tree) (r : Role)
+    (hpc : s.pc g = .removing r) (hrm : removeLt s.tree s.ttc = some ((i, w, c), t'))
+    (e1 : s'.tree = t') (e2 : s'.cur = i :: c) (e3 : s'.curW = w)
+    (e4 : s'.wake = s.wake) (e5 : s'.ttc = s.ttc) (e6 : s'.holder = s.holder)
+    (e7 : s'.pc = upd s.pc g (.gotNode r i)) : InvM s' := by
+  have hcur := cur_nil_of_holder hL hI (g := g) (by simp [hpc, Pc.holds]) (by simp [hpc, Pc.walking])
+  have hhold := hL.1 g (by simp [hpc, Pc.holds])
+  obtain ⟨m1, m2, m3, m4, m5⟩ := hI
+  have htl := removeLt_toList hrm
+  have hids : ids s.tree = (i :: c) ++ ids t' := by
+    simp only [ids, htl, List.map_append, ids_group]
+  refine ⟨?_, ?_, ?_, ?_, by rw [e1]; exact removeLt_ordered m5 hrm⟩
+  · rw [e1, e2]
+    rw [hcur, hids] at m1; simp only [List.append_nil] at m1
+    exact (List.perm_append_comm).nodup_iff.mp m1
+  · intro x hx
+    rw [e1] at hx
+    have hx' : x ∈ s.tree.toList := by rw [htl]; exact List.mem_append_right _ hx
+    have := m2 x hx'
+    rw [e4, e7]
+    have hxg : x.1 ≠ g := by
+      intro h; rw [h] at this; simp [hpc, Pc.inTree] at this
+    simp only [upd, hxg, if_false]; exact this
+  · intro m hm
+    rw [e2] at hm
+    have hmem : (m, w) ∈ s.tree.toList := by
+      rw [htl]; apply List.mem_append_left
+      simp only [group, List.mem_cons, List.mem_map] at hm ⊢
+      rcases hm with rfl | hm
+      · left; rfl
+      · right; exact ⟨m, hm, rfl⟩
+    have := m2 (m, w) hmem
+    simp only at this
+    rw [e4, e3, e7]
+    have hmg : m ≠ g := by
+      intro h; rw [h] at this; simp [hpc, Pc.inTree] at this
+    simp only [upd, hmg, if_false]
+    refine ⟨this.1, ?_, this.2.2⟩
+    -- in the tree and not the lock holder: parked
+    have hin := this.2.1
+    by_cases hp : s.pc m = .parked
+    · exact hp
+    · have hh : (s.pc m).holds = true := by
+        revert hin hp; cases s.pc m <;> simp [Pc.inTree, Pc.holds]
+      have := hL.1 m hh
+      rw [hhold] at this; simp at this; exact absurd this.symm hmg
+  · intro _
+    rw [e3, e5, e6, e7]
+    exact ⟨removeLt_lt hrm, g, hhold, by simp [upd, Pc.walking]⟩
+
+theorem invM_wake {s : St} (hL : InvL s) (hI : InvM s) (s' : St) (g f : Nat) (p' : Pc)
+    (hg : (s.pc g).walking = true) (hgh : (s.pc g).holds = true) (hf : s.pc f = .parked)
+    (hhd : s.cur.head? = some f)
+    (e1 : s'.tree = s.tree) (e2 : s'.cur = s.cur.tail) (e3 : s'.curW = s.curW)
+    (e4 : s'.wake = s.wake) (e5 : s'.ttc = s.ttc) (e6 : s'.holder = s.holder)
+    (e7 : s'.pc = upd (upd s.pc f .woken) g p')
+    (c3 : p'.walking = true ∨ s.cur.tail = []) : InvM s' := by
+  have hhold := hL.1 g hgh
+  obtain ⟨m1, m2, m3, m4, m5⟩ := hI
+  obtain ⟨rest, hc⟩ : ∃ rest, s.cur = f :: rest := by
+    cases hcur : s.cur with
+    | nil => simp [hcur] at hhd
+    | cons a rest => simp [hcur] at hhd; subst hhd; exact ⟨rest, rfl⟩
+  have hgin : (s.pc g).inTree = false := by revert hg; cases s.pc g <;> simp [Pc.walking, Pc.inTree]
+  have hgp : s.pc g ≠ .parked := by intro h; simp [h, Pc.walking] at hg
+  rw [hc] at m1 m3 m4
+  have hn := List.nodup_append.mp m1
+  have hfr : f ∉ rest := (List.nodup_cons.mp hn.2.1).1
+  have hfi : f ∉ ids s.tree := fun h => hn.2.2 f h f (by simp) rfl
+  rw [hc, List.tail_cons] at e2 c3
+  refine ⟨?_, ?_, ?_, ?_, by rw [e1]; exact m5⟩
+  · rw [e1, e2]
+    exact List.nodup_append.mpr ⟨hn.1, (List.nodup_cons.mp hn.2.1).2,
+      fun a ha b hb => hn.2.2 a ha b (List.mem_cons_of_mem _ hb)⟩
+  · intro x hx
+    rw [e1] at hx
+    have := m2 x hx
+    rw [e4, e7]
+    have hxf : x.1 ≠ f := by
+      intro h; apply hfi; simp only [ids, List.mem_map]; exact ⟨x, hx, h⟩
+    have hxg : x.1 ≠ g := by intro h; rw [h] at this; simp [hgin] at this
+    simp only [upd, hxf, hxg, if_false]; exact this
+  · intro m hm
+    rw [e2] at hm
+    have := m3 m (List.mem_cons_of_mem _ hm)
+    rw [e4, e3, e7]
+    have hmf : m ≠ f := by intro h; subst h; exact hfr hm
+    have hmg : m ≠ g := by intro h; subst h; exact hgp this.2.1
+    simp only [upd, hmf, hmg, if_false]; exact this
+  · intro hr
+    rw [e2] at hr
+    obtain ⟨h1, _⟩ := m4 (by simp)
+    rw [e3, e5, e6, e7]
+    refine ⟨h1, g, hhold, ?_⟩
+    simp only [upd, if_true]
+    rcases c3 with h | h
+    · exact h
+    · exact absurd h hr
+
+theorem head_getD_eq_zero {l : List Nat} (h0 : ∀ m ∈ l, m ≠ 0) (h : l.head?.getD 0 = 0) : l = [] := by
+  cases l with
+  | nil => rfl
+  | cons a l => simp at h; exact absurd h (h0 a (by simp))
+
+theorem afterNext_walking (r : Role) (y : Nat) (h : y ≠ 0) : (afterNext r y).walking = true := by
+  simp [afterNext, h, Pc.walking]
+
+set_option maxHeartbeats 1000000 in
+theorem invM_step (v : Variant) (s s' : St) (e : Ev) (hL : InvL s) (hI : InvM s)
+    (h : step v s e = some s') : InvM s' := by
+  have hI' := hI
+  obtain ⟨m1, m2, m3, m4, m5⟩ := hI'
+  cases e with
+  | nodeNote f wt =>
+    simp only [step] at h; (repeat' split at h) <;> simp at h; subst h
+    rename_i hpc _ hc
+    exact invM_insert hL hI _ f wt hpc hc.2.2.2 rfl rfl rfl rfl rfl rfl rfl
+  | rWaiter g n x =>
+    simp only [step] at h; (repeat' split at h) <;> simp at h <;> subst h
+    · rename_i _ r hpc _ i w c t' hrm hc
+      obtain ⟨rfl, _, _⟩ := hc
+      exact invM_remove hL hI _ g n w c t' r hpc hrm rfl rfl rfl rfl rfl rfl rfl
+    · exact invM_frame hI _ _ _ rfl rfl rfl rfl (fun _ => Nat.le_refl _) (fun _ => rfl) rfl
+          (by simp_all [Pc.inTree]) (by simp_all) (by simp_all [Pc.walking])
+  | wState g f x =>
+    simp only [step] at h; (repeat' split at h) <;> simp at h <;> subst h
+    · exact invM_frame hI _ _ _ rfl rfl rfl rfl (fun _ => Nat.le_refl _) (fun _ => rfl) rfl
+          (by simp_all [Pc.inTree]) (by simp_all) (by simp_all [Pc.walking])
+    · rename_i _ r n y hpc hc
+      obtain ⟨_, rfl, hf, hhd, hy⟩ := hc
+      refine invM_wake hL hI _ g n _ (by simp [hpc, Pc.walking]) (by simp [hpc, Pc.holds]) hf hhd
+        rfl rfl rfl rfl rfl rfl rfl ?_
+      by_cases hy0 : y = 0
+      · right
+        apply head_getD_eq_zero _ (hy0 ▸ hy.symm)
+        intro m hm; exact (m3 m (List.mem_of_mem_tail hm)).2.2
+      · left; exact afterNext_walking r y hy0
+    · rename_i _ r n hpc hc
+      obtain ⟨_, rfl, hf, hhd⟩ := hc
+      exact invM_wake hL hI _ g n _ (by simp [hpc, Pc.walking]) (by simp [hpc, Pc.holds]) hf hhd
+        rfl rfl rfl rfl rfl rfl rfl (Or.inl (by simp [Pc.walking]))
+  | rNext g n x =>
+    simp only [step] at h; (repeat' split at h) <;> simp at h <;> subst h
+    · exact hI
+    · exact invM_frame hI _ _ _ rfl rfl rfl rfl (fun _ => Nat.le_refl _) (fun _ => rfl) rfl
+          (by simp_all [Pc.inTree]) (by simp_all) (by simp_all [Pc.walking])
+    · rename_i _ r m hpc _ _ hx
+      refine invM_frame hI _ _ _ rfl rfl rfl rfl (fun _ => Nat.le_refl _) (fun _ => rfl) rfl
+          (by simp_all [Pc.inTree]) (by simp_all) ?_
+      intro _
+      by_cases hx0 : s.cur.head?.getD 0 = 0
+      · right; exact head_getD_eq_zero (fun m hm => (m3 m hm).2.2) hx0
+      · left; rw [hx]; exact afterNext_walking _ _ hx0
+    · rename_i _ r m hpc _ _ hx
+      exact invM_clear hI _ g _ rfl rfl rfl rfl (by simp [hpc, Pc.inTree])
+    · rename_i _ r m hpc _ _ hx0 hx
+      refine invM_frame hI _ _ _ rfl rfl rfl rfl (fun _ => Nat.le_refl _) (fun _ => rfl) rfl
+          (by simp_all [Pc.inTree]) (by simp_all) ?_
+      intro _
+      left; rw [hx]; exact afterNext_walking _ _ (by rw [← hx]; exact hx0)
+  | staleNext g x =>
+    simp only [step] at h; (repeat' split at h) <;> simp at h <;> subst h
+    · rename_i _ r m hpc _ hx
+      exact invM_clear hI _ g _ rfl rfl rfl rfl (by simp [hpc, Pc.inTree])
+    · rename_i _ r m hpc _ hx0 hx
+      refine invM_frame hI _ _ _ rfl rfl rfl rfl (fun _ => Nat.le_refl _) (fun _ => rfl) rfl
+          (by simp_all [Pc.inTree]) (by simp_all) ?_
+      intro _
+      left; rw [hx]; exact afterNext_walking _ _ (by rw [← hx]; exact hx0)
+  | wTtc g x =>
+    simp only [step] at h; (repeat' split at h) <;> simp at h; subst h
+    rename_i _ r k y hpc hx
+    have hcur := cur_nil_of_holder hL hI (g := g) (by simp [hpc, Pc.holds]) (by simp [hpc, Pc.walking])
+    exact invM_frame hI _ _ _ rfl rfl rfl rfl (fun hc => absurd hcur hc) (fun _ => rfl) rfl
+          (by simp_all [Pc.inTree]) (by simp_all) (by simp_all [Pc.walking])
+  | lockLd g t =>
+    simp only [step] at h; (repeat' split at h) <;> simp at h <;> subst h
+    · rename_i hnone
+      have hcur := cur_nil_of_free hI hnone
+      exact invM_frame hI _ _ _ rfl rfl rfl rfl (fun _ => Nat.le_refl _) (fun hc => absurd hcur hc) rfl
+          (by simp_all [Pc.inTree]) (by simp_all) (by simp_all [Pc.walking])
+    · exact hI
+  | unlockSt g t =>
+    simp only [step] at h; (repeat' split at h) <;> simp at h <;> subst h
+    all_goals
+      rename_i o _ _ _ _ hpc
+      have hcur := cur_nil_of_holder hL hI (g := o) (by simp [hpc, Pc.holds]) (by simp [hpc, Pc.walking])
+      exact invM_frame hI _ _ _ rfl rfl rfl rfl (fun _ => Nat.le_refl _) (fun hc => absurd hcur hc) rfl
+          (by simp_all [Pc.inTree]) (by simp_all) (by simp_all [Pc.walking])
+  | _ =>
+    simp only [step] at h <;> (repeat' split at h) <;> simp at h <;> (try subst h)
+    all_goals first
+      | exact hI
+      | exact invM_same hI _ rfl rfl rfl rfl rfl rfl rfl
+      | exact invM_frame hI _ _ _ rfl rfl rfl rfl (fun _ => Nat.le_refl _) (fun _ => rfl) rfl
+          (by simp_all [Pc.inTree]) (by simp_all) (by simp_all [Pc.walking])
+
+/-! ### S: per-sleeper timing -/
+
+def Pc.inCall : Pc → Bool
+  | .called | .inserting | .inserted | .owner | .parkedL | .parked | .woken | .done => true
+  | .spin r _ _ | .locked r _ | .addR r _ | .addW r _ _ | .loopHead r | .removing r | .gotNode r _
+  | .gotNext r _ _ | .sched r _ | .needNode r _ => r == .sl
+  | _ => false
+def Pc.hasBase : Pc → Bool
+  | .inserting | .inserted | .owner | .parkedL | .parked => true
+  | _ => false
+
+/-- ticks of the fiber_sleep call in progress -/
+def curTicks (v : Variant) (s : St) (f : Nat) : Nat :=
+  match s.segs f with
+  | [] => 0
+  | (a, b) :: _ => ticks v a b
+
+def InvS1 (v : Variant) (s : St) (f : Nat) : Prop :=
+  ((s.pc f).inCall = true →
+      (s.stale f = false → s.start f + s.credit f ≤ s.segStart f) ∧ s.segStart f ≤ s.now ∧
+      s.credit f + guaranteed v (s.segs f) = s.guar f) ∧
+  (s.pc f = .done → s.segs f = []) ∧
+  ((s.pc f).hasBase = true → s.stale f = false → s.segStart f / v.period ≤ s.base f) ∧
+  ((s.pc f).inTree = true → s.wake f = s.base f + curTicks v s f) ∧
+  (s.pc f = .woken → s.stale f = false → s.segStart f + v.period * curTicks v s f ≤ s.now)
+
+def InvS (v : Variant) (s : St) : Prop := ∀ f, InvS1 v s f
+
+theorem invS_init (v : Variant) : InvS v init := by
+  intro f; simp [InvS1, init, Pc.inCall, Pc.hasBase, Pc.inTree]
+
+/-- only one pc changes, to a state that needs no new fact -/
+theorem invS_frame {v : Variant} {s : St} (hI : InvS v s) (s' : St) (g : Nat) (p' : Pc)
+    (e0 : s'.now = s.now) (e1 : s'.segs = s.segs) (e2 : s'.start = s.start) (e3 : s'.credit = s.credit)
+    (e4 : s'.segStart = s.segStart) (e5 : s'.base = s.base) (e6 : s'.wake = s.wake)
+    (e7 : s'.stale = s.stale) (e8 : s'.guar = s.guar) (e9 : s'.pc = upd s.pc g p')
+    (c1 : p'.inCall = true → (s.pc g).inCall = true)
+    (c2 : p' = .done → s.pc g = .done) (c3 : p'.hasBase = true → (s.pc g).hasBase = true)
+    (c4 : p'.inTree = true → (s.pc g).inTree = true) (c5 : p' = .woken → s.pc g = .woken) :
+    InvS v s' := by
+  intro f
+  have := hI f
+  unfold InvS1 curTicks at *
+  rw [e0, e1, e2, e3, e4, e5, e6, e7, e8, e9]
+  by_cases hfg : f = g
+  · subst hfg
+    simp only [upd, if_true]
+    exact ⟨fun h => this.1 (c1 h), fun h => this.2.1 (c2 h), fun h => this.2.2.1 (c3 h),
+      fun h => this.2.2.2.1 (c4 h), fun h => this.2.2.2.2 (c5 h)⟩
+  · simp only [upd, hfg, if_false]; exact this
+
+theorem invS_same {v : Variant} {s : St} (hI : InvS v s) (s' : St)
+    (e0 : s'.now = s.now) (e1 : s'.segs = s.segs) (e2 : s'.start = s.start) (e3 : s'.credit = s.credit)
+    (e4 : s'.segStart = s.segStart) (e5 : s'.base = s.base) (e6 : s'.wake = s.wake)
+    (e7 : s'.stale = s.stale) (e8 : s'.guar = s.guar) (e9 : s'.pc = s.pc) : InvS v s' := by
+  intro f
+  have := hI f
+  unfold InvS1 curTicks at *
+  rw [e0, e1, e2, e3, e4, e5, e6, e7, e8, e9]; exact this
+
+theorem wake_arith {P now seg base T ttc wake : Nat} (hP : 0 < P) (h1 : ttc ≤ now / P)
+    (h2 : wake < ttc) (h3 : wake = base + T) (h4 : seg / P ≤ base) : seg + P * T ≤ now := by
+  have a1 : P * (now / P) ≤ now := Nat.mul_div_le now P
+  have a2 : P * (seg / P + T + 1) ≤ P * (now / P) := Nat.mul_le_mul_left P (by omega)
+  have a3 := Nat.div_add_mod seg P
+  have a4 := Nat.mod_lt seg hP
+  rw [Nat.mul_add, Nat.mul_add, Nat.mul_one] at a2
+  omega
+
+
+@[simp] theorem afterNext_inCall (r : Role) (y : Nat) : (afterNext r y).inCall = (r == .sl) := by
+  unfold afterNext; split <;> simp [Pc.inCall]
+@[simp] theorem afterNext_hasBase (r : Role) (y : Nat) : (afterNext r y).hasBase = false := by
+  unfold afterNext; split <;> simp [Pc.hasBase]
+@[simp] theorem afterNext_inTree (r : Role) (y : Nat) : (afterNext r y).inTree = false := by
+  unfold afterNext; split <;> simp [Pc.inTree]
+@[simp] theorem afterNext_ne_done (r : Role) (y : Nat) : afterNext r y ≠ .done := by
+  unfold afterNext; split <;> simp
+@[simp] theorem afterNext_ne_woken (r : Role) (y : Nat) : afterNext r y ≠ .woken := by
+  unfold afterNext; split <;> simp
+
+/-- fiber_sleep reads ttc: `base`, `stale` -/
+theorem invS_base {v : Variant} {s : St} (hI : InvS v s) (s' : St) (g x : Nat)
+    (hc : (s.pc g).inCall = true)
+    (e0 : s'.now = s.now) (e1 : s'.segs = s.segs) (e2 : s'.start = s.start) (e3 : s'.credit = s.credit)
+    (e4 : s'.segStart = s.segStart) (e5 : s'.base = upd s.base g x) (e6 : s'.wake = s.wake)
+    (e7 : s'.stale = upd s.stale g (s.stale g || decide (x < s.segStart g / v.period)))
+    (e8 : s'.guar = s.guar) (e9 : s'.pc = upd s.pc g .inserting) : InvS v s' := by
+  intro f
+  have := hI f
+  unfold InvS1 curTicks at *
+  rw [e0, e1, e2, e3, e4, e5, e6, e7, e8, e9]
+  by_cases hfg : f = g
+  · subst hfg
+    simp only [upd, if_true, Pc.inCall, Pc.hasBase, Pc.inTree]
+    have h1 := this.1 hc
+    refine ⟨fun _ => ⟨fun hs => h1.1 (by simp at hs; exact hs.1), h1.2⟩, by simp, ?_, by simp, by simp⟩
+    intro _ hs
+    simp at hs
+    exact hs.2
+  · simp only [upd, hfg, if_false]; exact this
+
+
+theorem invS_tick {v : Variant} {s : St} (hI : InvS v s) (s' : St)
+    (e0 : s.now ≤ s'.now) (e1 : s'.segs = s.segs) (e2 : s'.start = s.start) (e3 : s'.credit = s.credit)
+    (e4 : s'.segStart = s.segStart) (e5 : s'.base = s.base) (e6 : s'.wake = s.wake)
+    (e7 : s'.stale = s.stale) (e8 : s'.guar = s.guar) (e9 : s'.pc = s.pc) : InvS v s' := by
+  intro f
+  have := hI f
+  unfold InvS1 curTicks at *
+  rw [e1, e2, e3, e4, e5, e6, e7, e8, e9]
+  refine ⟨fun h => ⟨(this.1 h).1, Nat.le_trans (this.1 h).2.1 e0, (this.1 h).2.2⟩, this.2.1, this.2.2.1,
+    this.2.2.2.1, fun h hs => Nat.le_trans (this.2.2.2.2 h hs) e0⟩
+
+theorem invS_call {v : Variant} {s : St} (hI : InvS v s) (s' : St) (f : Nat) (pl : List (Nat × Nat))
+    (e0 : s'.now = s.now) (e1 : s'.segs = upd s.segs f pl) (e2 : s'.start = upd s.start f s.now)
+    (e3 : s'.credit = upd s.credit f 0) (e4 : s'.segStart = upd s.segStart f s.now)
+    (e5 : s'.base = s.base) (e6 : s'.wake = s.wake) (e7 : s'.stale = upd s.stale f false)
+    (e8 : s'.guar = upd s.guar f (guaranteed v pl)) (e9 : s'.pc = upd s.pc f .called) : InvS v s' := by
+  intro f'
+  have := hI f'
+  unfold InvS1 curTicks at *
+  rw [e0, e1, e2, e3, e4, e5, e6, e7, e8, e9]
+  by_cases hfg : f' = f
+  · subst hfg
+    simp [upd, Pc.inCall, Pc.hasBase, Pc.inTree]
+  · simp only [upd, hfg, if_false]; exact this
+
+theorem invS_node {v : Variant} {s : St} (hI : InvS v s) (s' : St) (f wt sec usec : Nat)
+    (tl : List (Nat × Nat)) (hpc : s.pc f = .inserting) (hsegs : s.segs f = (sec, usec) :: tl)
+    (hwt : wt = s.base f + ticks v sec usec)
+    (e0 : s'.now = s.now) (e1 : s'.segs = s.segs) (e2 : s'.start = s.start) (e3 : s'.credit = s.credit)
+    (e4 : s'.segStart = s.segStart) (e5 : s'.base = s.base) (e6 : s'.wake = upd s.wake f wt)
+    (e7 : s'.stale = s.stale) (e8 : s'.guar = s.guar) (e9 : s'.pc = upd s.pc f .inserted) : InvS v s' := by
+  intro f'
+  have := hI f'
+  unfold InvS1 curTicks at *
+  rw [e0, e1, e2, e3, e4, e5, e6, e7, e8, e9]
+  by_cases hfg : f' = f
+  · subst hfg
+    simp only [upd, if_true, Pc.inCall, Pc.hasBase, Pc.inTree]
+    simp only [hpc, Pc.inCall, Pc.hasBase, Pc.inTree] at this
+    refine ⟨fun _ => this.1 trivial, by simp, fun _ => this.2.2.1 trivial, fun _ => ?_, by simp⟩
+    rw [hsegs]; exact hwt
+  · simp only [upd, hfg, if_false]; exact this
+
+/-- a wake pass makes `f` READY: `f`'s deadline is behind `ttc`, and `ttc` never runs ahead of
+    the timer -/
+theorem invS_wake {v : Variant} {s : St} (hP : 0 < v.period) (hI : InvS v s) (s' : St)
+    (g f : Nat) (p' : Pc) (hf : s.pc f = .parked) (hgf : g ≠ f)
+    (hdue : s.wake f < s.ttc) (hclock : s.ttc ≤ s.now / v.period)
+    (e0 : s'.now = s.now) (e1 : s'.segs = s.segs) (e2 : s'.start = s.start) (e3 : s'.credit = s.credit)
+    (e4 : s'.segStart = s.segStart) (e5 : s'.base = s.base) (e6 : s'.wake = s.wake)
+    (e7 : s'.stale = s.stale) (e8 : s'.guar = s.guar) (e9 : s'.pc = upd (upd s.pc f .woken) g p')
+    (c1 : p'.inCall = true → (s.pc g).inCall = true)
+    (c2 : p' ≠ .done) (c3 : p'.hasBase = false) (c4 : p'.inTree = false) (c5 : p' ≠ .woken) :
+    InvS v s' := by
+  intro f'
+  have := hI f'
+  unfold InvS1 curTicks at *
+  rw [e0, e1, e2, e3, e4, e5, e6, e7, e8, e9]
+  by_cases hfg : f' = g
+  · subst hfg
+    simp only [upd, if_true]
+    exact ⟨fun h => this.1 (c1 h), fun h => absurd h c2, fun h => by simp [c3] at h,
+      fun h => by simp [c4] at h, fun h => absurd h c5⟩
+  · by_cases hff : f' = f
+    · subst hff
+      simp only [upd, hfg, if_false, if_true, Pc.inCall, Pc.hasBase, Pc.inTree]
+      simp only [hf, Pc.inCall, Pc.hasBase, Pc.inTree] at this
+      refine ⟨fun _ => this.1 trivial, by simp, by simp, by simp, fun _ hs => ?_⟩
+      exact wake_arith hP hclock hdue (this.2.2.2.1 trivial) (this.2.2.1 trivial hs)
+    · simp only [upd, hfg, hff, if_false]; exact this
+
+theorem invS_resume {v : Variant} {s : St} (hI : InvS v s) (s' : St) (f sec usec : Nat)
+    (rest : List (Nat × Nat)) (hpc : s.pc f = .woken) (hsegs : s.segs f = (sec, usec) :: rest)
+    (e0 : s'.now = s.now) (e1 : s'.segs = upd s.segs f rest) (e2 : s'.start = s.start)
+    (e3 : s'.credit = upd s.credit f (s.credit f + v.period * ticks v sec usec))
+    (e4 : s'.segStart = upd s.segStart f s.now) (e5 : s'.base = s.base) (e6 : s'.wake = s.wake)
+    (e7 : s'.stale = s.stale) (e8 : s'.guar = s.guar)
+    (e9 : s'.pc = upd s.pc f (if rest = [] then .done else .called)) : InvS v s' := by
+  intro f'
+  have := hI f'
+  unfold InvS1 curTicks at *
+  rw [e0, e1, e2, e3, e4, e5, e6, e7, e8, e9]
+  by_cases hfg : f' = f
+  · subst hfg
+    simp only [upd, if_true]
+    simp only [hpc, hsegs, Pc.inCall, Pc.hasBase, Pc.inTree, guaranteed] at this
+    have h1 := this.1 trivial
+    have h5 := this.2.2.2.2 trivial
+    refine ⟨fun _ => ⟨fun hs => ?_, Nat.le_refl _, by omega⟩, ?_, ?_, ?_, ?_⟩
+    · have := h1.1 hs; have := h5 hs; omega
+    · intro h; split at h <;> simp_all
+    · intro h; split at h <;> simp [Pc.hasBase] at h
+    · intro h; split at h <;> simp [Pc.inTree] at h
+    · intro h; split at h <;> simp at h
+  · simp only [upd, hfg, if_false]; exact this
+
+
+theorem head_mem {l : List Nat} {f : Nat} (h : l.head? = some f) : f ∈ l := by
+  cases l with
+  | nil => simp at h
+  | cons a l => simp at h; simp [h]
+
+set_option maxHeartbeats 1000000 in
+theorem invS_step (v : Variant) (hP : 0 < v.period) (s s' : St) (e : Ev) (hT : InvT v s)
+    (hM : InvM s) (hI : InvS v s) (h : step v s e = some s') : InvS v s' := by
+  cases e with
+  | tick d k =>
+    simp only [step] at h; split at h <;> simp at h; subst h
+    exact invS_tick hI _ (Nat.le_add_right _ _) rfl rfl rfl rfl rfl rfl rfl rfl rfl
+  | callSleep f kind a b t =>
+    simp only [step] at h; split at h <;> simp at h; subst h
+    exact invS_call hI _ f _ rfl rfl rfl rfl rfl rfl rfl rfl rfl rfl
+  | rTtc g x inSleep =>
+    simp only [step] at h; (repeat' split at h) <;> simp at h <;> subst h
+    · exact invS_frame hI _ _ _ rfl rfl rfl rfl rfl rfl rfl rfl rfl rfl
+        (by simp_all [Pc.inCall]) (by simp_all) (by simp_all [Pc.hasBase]) (by simp_all [Pc.inTree]) (by simp_all)
+    · rename_i hx _ _ _ _ hpc _
+      exact invS_base hI _ g _ (by simp [hpc, Pc.inCall]) rfl rfl rfl rfl rfl (by rw [hx]) rfl
+        (by rw [hx]) rfl rfl
+    · exact invS_frame hI _ _ _ rfl rfl rfl rfl rfl rfl rfl rfl rfl rfl
+        (by simp_all [Pc.inCall]) (by simp_all) (by simp_all [Pc.hasBase]) (by simp_all [Pc.inTree]) (by simp_all)
+    · exact invS_frame hI _ _ _ rfl rfl rfl rfl rfl rfl rfl rfl rfl rfl
+        (by simp_all [Pc.inCall]) (by simp_all) (by simp_all [Pc.hasBase]) (by simp_all [Pc.inTree]) (by simp_all)
+    · rename_i hx _ _ hpc hc
+      obtain ⟨_, rfl, _, _⟩ := hc
+      exact invS_base hI _ g _ (by simp [hpc, Pc.inCall]) rfl rfl rfl rfl rfl (by rw [hx]) rfl
+        (by rw [hx]) rfl rfl
+  | nodeNote f wt =>
+    simp only [step] at h; (repeat' split at h) <;> simp at h; subst h
+    rename_i hpc hsegs hc
+    exact invS_node hI _ f wt _ _ _ hpc hsegs hc.1 rfl rfl rfl rfl rfl rfl rfl rfl rfl rfl
+  | wState g f x =>
+    simp only [step] at h; (repeat' split at h) <;> simp at h <;> subst h
+    · exact invS_frame hI _ _ _ rfl rfl rfl rfl rfl rfl rfl rfl rfl rfl
+        (by simp_all [Pc.inCall]) (by simp_all) (by simp_all [Pc.hasBase]) (by simp_all [Pc.inTree]) (by simp_all)
+    · rename_i _ r n y hpc hc
+      obtain ⟨_, rfl, hf, hhd, hy⟩ := hc
+      have hm := head_mem hhd
+      have hne : s.cur ≠ [] := by intro h0; rw [h0] at hm; simp at hm
+      have hw := (hM.2.2.1 n hm).1
+      have hd := (hM.2.2.2.1 hne).1
+      have hclock : s.ttc ≤ s.now / v.period := by have := hT.1; omega
+      exact invS_wake hP hI _ g n _ hf (by intro h0; subst h0; simp [hf] at hpc) (by omega) hclock
+        rfl rfl rfl rfl rfl rfl rfl rfl rfl rfl
+        (by rw [afterNext_inCall, hpc]; simp [Pc.inCall]) (by simp) (by simp) (by simp) (by simp)
+    · rename_i _ r n hpc hc
+      obtain ⟨_, rfl, hf, hhd⟩ := hc
+      have hm := head_mem hhd
+      have hne : s.cur ≠ [] := by intro h0; rw [h0] at hm; simp at hm
+      have hw := (hM.2.2.1 n hm).1
+      have hd := (hM.2.2.2.1 hne).1
+      have hclock : s.ttc ≤ s.now / v.period := by have := hT.1; omega
+      exact invS_wake hP hI _ g n _ hf (by intro h0; subst h0; simp [hf] at hpc) (by omega) hclock
+        rfl rfl rfl rfl rfl rfl rfl rfl rfl rfl
+        (by simp [hpc, Pc.inCall]) (by simp) (by simp [Pc.hasBase]) (by simp [Pc.inTree]) (by simp)
+  | resumed f =>
+    simp only [step] at h; split at h <;> simp at h; subst h
+    rename_i hpc hsegs
+    exact invS_resume hI _ f _ _ _ hpc hsegs rfl rfl rfl rfl rfl rfl rfl rfl rfl rfl
+  | rNext g n x =>
+    simp only [step] at h; (repeat' split at h) <;> simp at h <;> subst h
+    · exact hI
+    · exact invS_frame hI _ _ _ rfl rfl rfl rfl rfl rfl rfl rfl rfl rfl
+        (by simp_all [Pc.inCall]) (by simp_all) (by simp_all [Pc.hasBase]) (by simp_all [Pc.inTree]) (by simp_all)
+    · rename_i _ r m hpc _ _ hx
+      exact invS_frame hI _ _ _ rfl rfl rfl rfl rfl rfl rfl rfl rfl rfl
+        (by rw [afterNext_inCall, hpc]; simp [Pc.inCall]) (fun h => absurd h (afterNext_ne_done _ _))
+        (by simp) (by simp) (fun h => absurd h (afterNext_ne_woken _ _))
+    · rename_i _ r m hpc _ _ hx
+      exact invS_frame hI _ _ _ rfl rfl rfl rfl rfl rfl rfl rfl rfl rfl
+        (by rw [hpc]; simp [Pc.inCall]) (by simp) (by simp [Pc.hasBase]) (by simp [Pc.inTree]) (by simp)
+    · rename_i _ r m hpc _ _ hx0 hx
+      exact invS_frame hI _ _ _ rfl rfl rfl rfl rfl rfl rfl rfl rfl rfl
+        (by rw [afterNext_inCall, hpc]; simp [Pc.inCall]) (fun h => absurd h (afterNext_ne_done _ _))
+        (by simp) (by simp) (fun h => absurd h (afterNext_ne_woken _ _))
+  | staleNext g x =>
+    simp only [step] at h; (repeat' split at h) <;> simp at h <;> subst h
+    · rename_i _ r m hpc _ hx
+      exact invS_frame hI _ _ _ rfl rfl rfl rfl rfl rfl rfl rfl rfl rfl
+        (by rw [hpc]; simp [Pc.inCall]) (by simp) (by simp [Pc.hasBase]) (by simp [Pc.inTree]) (by simp)
+    · rename_i _ r m hpc _ hx0 hx
+      exact invS_frame hI _ _ _ rfl rfl rfl rfl rfl rfl rfl rfl rfl rfl
+        (by rw [afterNext_inCall, hpc]; simp [Pc.inCall]) (fun h => absurd h (afterNext_ne_done _ _))
+        (by simp) (by simp) (fun h => absurd h (afterNext_ne_woken _ _))
+  | _ =>
+    simp only [step] at h <;> (repeat' split at h) <;> simp at h <;> (try subst h)
+    all_goals first
+      | exact hI
+      | exact invS_same hI _ rfl rfl rfl rfl rfl rfl rfl rfl rfl rfl
+      | exact invS_frame hI _ _ _ rfl rfl rfl rfl rfl rfl rfl rfl rfl rfl
+          (by simp_all [Pc.inCall]) (by simp_all) (by simp_all [Pc.hasBase]) (by simp_all [Pc.inTree]) (by simp_all)
+
+
+/-! ### C: every park is followed by at most one wake, every wake by exactly one resume -/
+
+def InvC (s : St) : Prop := ∀ f,
+  s.nWake f = s.nRes f + (if s.pc f = .woken then 1 else 0) ∧
+  s.nPark f = s.nWake f + (if s.pc f = .parkedL ∨ s.pc f = .parked then 1 else 0)
+
+theorem invC_init : InvC init := by intro f; simp [init]
+
+set_option maxHeartbeats 2000000 in
+theorem invC_step (v : Variant) (s s' : St) (e : Ev) (hI : InvC s) (h : step v s e = some s') :
+    InvC s' := by
+  cases e <;> simp only [step] at h <;> (repeat' split at h) <;> simp at h <;> (try subst h)
+  all_goals (intro f'; have := hI f'; (try simp only [upd, afterNext] at *); grind)
+
+/-! ### N: no sleeper is forgotten, and nothing due stays in the tree once a wake pass is over -/
+
+def Pc.inPass : Pc → Bool
+  | .loopHead _ | .removing _ | .gotNode .. | .gotNext .. | .sched .. | .needNode .. => true
+  | _ => false
+
+/-- the lock is free, or its owner is not in the middle of a wake pass -/
+def Quiet (s : St) : Prop := ∀ g, s.holder = some g → (s.pc g).inPass = false
+
+def InvN (v : Variant) (s : St) : Prop :=
+  (∀ f, (s.pc f).inTree = true → f ∈ ids s.tree ∨ f ∈ s.cur ∨ f ∈ s.lost) ∧
+  (Quiet s → ∀ x ∈ s.tree.toList, s.ttc ≤ x.2) ∧
+  (∀ f, s.pc f = .inserting → s.base f = s.ttc) ∧
+  (v.nextFirst = true → s.lost = [] ∧ s.badRead = false ∧ ∀ g r n, s.pc g ≠ .sched r n)
+
+theorem invN_init (v : Variant) : InvN v init := by
+  refine ⟨?_, ?_, ?_, ?_⟩ <;> simp [init, Pc.inTree, toList]
+
+/-- a node of the tree whose fiber does not own the lock belongs to a parked fiber -/
+theorem tree_member_parked {s : St} (hL : InvL s) (hM : InvM s) {g : Nat}
+    (hg : (s.pc g).holds = true) (hgt : (s.pc g).inTree = false) {x : Nat × Nat}
+    (hx : x ∈ s.tree.toList) : s.pc x.1 = .parked := by
+  have hin := (hM.2.1 x hx).2.1
+  have hne : x.1 ≠ g := by intro h; rw [h, hgt] at hin; simp at hin
+  by_cases hp : s.pc x.1 = .parked
+  · exact hp
+  · have hh : (s.pc x.1).holds = true := by
+      revert hin hp; cases s.pc x.1 <;> simp [Pc.inTree, Pc.holds]
+    have h1 := hL.1 x.1 hh
+    have h2 := hL.1 g hg
+    rw [h1] at h2; simp at h2; exact absurd h2 hne
+
+theorem invN_frame {v : Variant} {s : St} (hI : InvN v s) (s' : St) (g : Nat) (p' : Pc)
+    (e1 : s'.tree = s.tree) (e2 : s'.cur = s.cur) (e3 : s'.lost = s.lost) (e4 : s'.ttc = s.ttc)
+    (e5 : s'.base = s.base) (e6 : v.nextFirst = true → s.badRead = false → s'.badRead = false)
+    (e7 : s'.pc = upd s.pc g p')
+    (hq : Quiet s' → Quiet s)
+    (c1 : p'.inTree = true → (s.pc g).inTree = true)
+    (c2 : p' = .inserting → s.pc g = .inserting)
+    (c3 : ∀ r n, p' ≠ .sched r n) : InvN v s' := by
+  obtain ⟨n1, n2, n3, n4⟩ := hI
+  refine ⟨?_, ?_, ?_, ?_⟩
+  · intro f hf
+    rw [e1, e2, e3]; rw [e7] at hf
+    by_cases hfg : f = g
+    · subst hfg; simp only [upd, if_true] at hf; exact n1 f (c1 hf)
+    · simp only [upd, hfg, if_false] at hf; exact n1 f hf
+  · intro hq' x hx
+    rw [e1] at hx; rw [e4]; exact n2 (hq hq') x hx
+  · intro f hf
+    rw [e5, e4]; rw [e7] at hf
+    by_cases hfg : f = g
+    · subst hfg; simp only [upd, if_true] at hf; exact n3 f (c2 hf)
+    · simp only [upd, hfg, if_false] at hf; exact n3 f hf
+  · intro hv
+    obtain ⟨a, b, c⟩ := n4 hv
+    rw [e3, e7]
+    refine ⟨a, e6 hv b, ?_⟩
+    intro g' r n
+    by_cases hfg : g' = g
+    · subst hfg; simp only [upd, if_true]; exact c3 r n
+    · simp only [upd, hfg, if_false]; exact c g' r n
+
+theorem invN_same {v : Variant} {s : St} (hI : InvN v s) (s' : St)
+    (e1 : s'.tree = s.tree) (e2 : s'.cur = s.cur) (e3 : s'.lost = s.lost) (e4 : s'.ttc = s.ttc)
+    (e5 : s'.base = s.base) (e6 : s'.badRead = s.badRead) (e7 : s'.pc = s.pc)
+    (e8 : s'.holder = s.holder) : InvN v s' := by
+  unfold InvN Quiet at *; rw [e1, e2, e3, e4, e5, e6, e7, e8]; exact hI
+
+/-- `Quiet` only looks at the owner's pc -/
+theorem quiet_frame {s s' : St} {g : Nat} {p' : Pc} (e7 : s'.pc = upd s.pc g p')
+    (e8 : s'.holder = s.holder) (c : s.holder = some g → p'.inPass = false → (s.pc g).inPass = false) :
+    Quiet s' → Quiet s := by
+  intro hq g' hg'
+  have := hq g' (by rw [e8]; exact hg')
+  rw [e7] at this
+  by_cases hfg : g' = g
+  · subst hfg; simp only [upd, if_true] at this; exact c hg' this
+  · simp only [upd, hfg, if_false] at this; exact this
+
+
+@[simp] theorem afterNext_inPass (r : Role) (y : Nat) : (afterNext r y).inPass = true := by
+  unfold afterNext; split <;> simp [Pc.inPass]
+@[simp] theorem afterNext_ne_inserting (r : Role) (y : Nat) : afterNext r y ≠ .inserting := by
+  unfold afterNext; split <;> simp
+@[simp] theorem afterNext_ne_sched (r : Role) (y : Nat) (r' : Role) (n : Nat) : afterNext r y ≠ .sched r' n := by
+  unfold afterNext; split <;> simp
+
+theorem mem_ids_insert {t : Tree} {f wt x : Nat} : x ∈ ids (insert t f wt) ↔ x = f ∨ x ∈ ids t := by
+  rw [(ids_insert_perm t f wt).mem_iff]; simp
+
+theorem quiet_of {s s' : St} (hq : Quiet s') (g : Nat) (p' : Pc) (e7 : s'.pc = upd s.pc g p')
+    (e8 : s'.holder = s.holder) (c : s.holder = some g → p'.inPass = false → (s.pc g).inPass = false) :
+    Quiet s := quiet_frame e7 e8 c hq
+
+theorem quiet_absurd {s' : St} {g : Nat} {P : Prop} (hh : s'.holder = some g)
+    (hp : (s'.pc g).inPass = true) (hq : Quiet s') : P := by
+  have := hq g hh; rw [hp] at this; simp at this
+
+set_option maxHeartbeats 2000000 in
+theorem invN_step (v : Variant) (s s' : St) (e : Ev) (hL : InvL s) (hM : InvM s) (hI : InvN v s)
+    (h : step v s e = some s') : InvN v s' := by
+  have hI' := hI
+  obtain ⟨n1, n2, n3, n4⟩ := hI'
+  cases e with
+  | lockLd g t =>
+    simp only [step] at h; (repeat' split at h) <;> simp at h <;> subst h
+    · rename_i hnone
+      exact invN_frame hI _ _ _ rfl rfl rfl rfl rfl (fun _ h => h) rfl
+        (fun _ g' hg' => by rw [hnone] at hg'; simp at hg')
+        (by simp_all [Pc.inTree]) (by simp_all) (by simp_all)
+    · exact hI
+  | unlockSt g t =>
+    simp only [step] at h; (repeat' split at h) <;> simp at h <;> subst h
+    all_goals
+      rename_i o _ _ hho _ _ hpc
+      exact invN_frame hI _ _ _ rfl rfl rfl rfl rfl (fun _ h => h) rfl
+        (fun _ g' hg' => by rw [hho] at hg'; simp at hg'; subst hg'; simp [hpc, Pc.inPass])
+        (by simp_all [Pc.inTree]) (by simp_all) (by simp_all)
+  | rTtc g x inSleep =>
+    simp only [step] at h; (repeat' split at h) <;> simp at h <;> subst h
+    · exact invN_frame hI _ _ _ rfl rfl rfl rfl rfl (fun _ h => h) rfl
+        (quiet_frame rfl rfl (by simp_all [Pc.inPass]))
+        (by simp_all [Pc.inTree]) (by simp_all) (by simp_all)
+    · -- fiber_sleep (as found) reads ttc right after taking the lock
+      rename_i hx _ _ _ _ hpc _
+      refine ⟨?_, ?_, ?_, ?_⟩
+      · intro f hf
+        by_cases hfg : f = g
+        · subst hfg; simp [upd, Pc.inTree] at hf
+        · simp only [upd, hfg, if_false] at hf; exact n1 f hf
+      · intro hq' y hy
+        exact n2 (quiet_of hq' g _ rfl rfl (by simp [hpc, Pc.inPass])) y hy
+      · intro f hf
+        by_cases hfg : f = g
+        · subst hfg; simp [upd, hx]
+        · simp only [upd, hfg, if_false] at hf ⊢; exact n3 f hf
+      · intro hv
+        obtain ⟨a, b, c⟩ := n4 hv
+        refine ⟨a, b, ?_⟩
+        intro g' r n
+        by_cases hfg : g' = g
+        · subst hfg; simp [upd]
+        · simp only [upd, hfg, if_false]; exact c g' r n
+    · exact invN_frame hI _ _ _ rfl rfl rfl rfl rfl (fun _ h => h) rfl
+        (quiet_frame rfl rfl (by simp_all [Pc.inPass]))
+        (by simp_all [Pc.inTree]) (by simp_all) (by simp_all)
+    · exact invN_frame hI _ _ _ rfl rfl rfl rfl rfl (fun _ h => h) rfl
+        (quiet_frame rfl rfl (by simp_all [Pc.inPass]))
+        (by simp_all [Pc.inTree]) (by simp_all) (by simp_all)
+    · -- the wake pass inside fiber_sleep is over: nothing in the tree is due
+      rename_i hx _ _ hpc hc
+      obtain ⟨_, rfl, hnone, _⟩ := hc
+      refine ⟨?_, ?_, ?_, ?_⟩
+      · intro f hf
+        by_cases hfg : f = g
+        · subst hfg; simp [upd, Pc.inTree] at hf
+        · simp only [upd, hfg, if_false] at hf; exact n1 f hf
+      · intro _ y hy
+        exact removeLt_none hM.2.2.2.2 hnone y hy
+      · intro f hf
+        by_cases hfg : f = g
+        · subst hfg; simp [upd, hx]
+        · simp only [upd, hfg, if_false] at hf ⊢; exact n3 f hf
+      · intro hv
+        obtain ⟨a, b, c⟩ := n4 hv
+        refine ⟨a, b, ?_⟩
+        intro g' r n
+        by_cases hfg : g' = g
+        · subst hfg; simp [upd]
+        · simp only [upd, hfg, if_false]; exact c g' r n
+  | wTtc g x =>
+    simp only [step] at h; (repeat' split at h) <;> simp at h; subst h
+    rename_i _ r k y hpc hx
+    have hhold := hL.1 g (by simp [hpc, Pc.holds])
+    refine ⟨?_, ?_, ?_, ?_⟩
+    · intro f hf
+      by_cases hfg : f = g
+      · subst hfg; simp [upd, Pc.inTree] at hf
+      · simp only [upd, hfg, if_false] at hf; exact n1 f hf
+    · intro hq'
+      have := hq' g hhold
+      simp [upd, Pc.inPass] at this
+    · intro f hf
+      by_cases hfg : f = g
+      · subst hfg; simp [upd] at hf
+      · simp only [upd, hfg, if_false] at hf
+        have := hL.1 f (by simp [hf, Pc.holds])
+        rw [hhold] at this; simp at this; exact absurd this.symm hfg
+    · intro hv
+      obtain ⟨a, b, c⟩ := n4 hv
+      refine ⟨a, b, ?_⟩
+      intro g' r' n
+      by_cases hfg : g' = g
+      · subst hfg; simp [upd]
+      · simp only [upd, hfg, if_false]; exact c g' r' n
+  | nodeNote f wt =>
+    simp only [step] at h; (repeat' split at h) <;> simp at h; subst h
+    rename_i hpc hsegs hc
+    have hb := n3 f hpc
+    refine ⟨?_, ?_, ?_, ?_⟩
+    · intro f' hf'
+      by_cases hfg : f' = f
+      · subst hfg; left; exact mem_ids_insert.mpr (Or.inl rfl)
+      · simp only [upd, hfg, if_false] at hf'
+        rcases n1 f' hf' with h1 | h1
+        · left; exact mem_ids_insert.mpr (Or.inr h1)
+        · right; exact h1
+    · intro hq' y hy
+      have hq : Quiet s := quiet_of hq' f _ rfl rfl (by simp [hpc, Pc.inPass])
+      rcases mem_insert_toList.mp hy with rfl | hy
+      · simp only; rw [hc.1]; omega
+      · exact n2 hq y hy
+    · intro f' hf'
+      by_cases hfg : f' = f
+      · subst hfg; simp [upd] at hf'
+      · simp only [upd, hfg, if_false] at hf'; exact n3 f' hf'
+    · intro hv
+      obtain ⟨a, b, c⟩ := n4 hv
+      refine ⟨a, b, ?_⟩
+      intro g' r n
+      by_cases hfg : g' = f
+      · subst hfg; simp [upd]
+      · simp only [upd, hfg, if_false]; exact c g' r n
+  | rWaiter g n x =>
+    simp only [step] at h; (repeat' split at h) <;> simp at h <;> subst h
+    · rename_i _ r hpc _ i w c t' hrm hc
+      obtain ⟨rfl, _, _⟩ := hc
+      have hhold := hL.1 g (by simp [hpc, Pc.holds])
+      have hcur := cur_nil_of_holder hL hM (g := g) (by simp [hpc, Pc.holds]) (by simp [hpc, Pc.walking])
+      have htl := removeLt_toList hrm
+      have hids : ids s.tree = (n :: c) ++ ids t' := by
+        simp only [ids, htl, List.map_append, ids_group]
+      have hpark : s.pc n = .parked :=
+        tree_member_parked hL hM (g := g) (by simp [hpc, Pc.holds]) (by simp [hpc, Pc.inTree])
+          (x := (n, w)) (by rw [htl]; simp [group])
+      refine ⟨?_, ?_, ?_, ?_⟩
+      · intro f hf
+        by_cases hfg : f = g
+        · subst hfg; simp [upd, Pc.inTree] at hf
+        · simp only [upd, hfg, if_false] at hf
+          rcases n1 f hf with h1 | h1 | h1
+          · rw [hids] at h1
+            rcases List.mem_append.mp h1 with h2 | h2
+            · right; left; exact h2
+            · left; exact h2
+          · rw [hcur] at h1; simp at h1
+          · right; right; exact h1
+      · intro hq'
+        have := hq' g hhold
+        simp [upd, Pc.inPass] at this
+      · intro f hf
+        by_cases hfg : f = g
+        · subst hfg; simp [upd] at hf
+        · simp only [upd, hfg, if_false] at hf; exact n3 f hf
+      · intro hv
+        obtain ⟨a, b, c'⟩ := n4 hv
+        refine ⟨a, by simp [b, hpark], ?_⟩
+        intro g' r' n'
+        by_cases hfg : g' = g
+        · subst hfg; simp [upd]
+        · simp only [upd, hfg, if_false]; exact c' g' r' n'
+    · rename_i _ r y hpc hc
+      obtain ⟨rfl, hhd, _⟩ := hc
+      have hpark := (hM.2.2.1 n (head_mem hhd)).2.1
+      exact invN_frame hI _ _ _ rfl rfl rfl rfl rfl (fun _ b => by simp [b, hpark]) rfl
+        (quiet_frame rfl rfl (by simp_all [Pc.inPass]))
+        (by simp_all [Pc.inTree]) (by simp_all) (by simp_all)
+  | rNext g n x =>
+    simp only [step] at h; (repeat' split at h) <;> simp at h <;> subst h
+    · exact hI
+    · rename_i _ r m hpc hc
+      obtain ⟨_, rfl, hhd, _⟩ := hc
+      have hpark := (hM.2.2.1 n (head_mem hhd)).2.1
+      exact invN_frame hI _ _ _ rfl rfl rfl rfl rfl (fun _ b => by simp [b, hpark]) rfl
+        (quiet_frame rfl rfl (by simp_all [Pc.inPass]))
+        (by simp_all [Pc.inTree]) (by simp_all) (by simp_all)
+    all_goals
+      -- as found only: the actor is in `sched`, impossible when `next` is read first
+      obtain ⟨r, m, hpc⟩ : ∃ r m, s.pc g = .sched r m := ⟨_, _, by assumption⟩
+      have hhold := hL.1 g (by simp [hpc, Pc.holds])
+      refine ⟨?_, ?_, ?_, ?_⟩
+      · intro f hf
+        by_cases hfg : f = g
+        · subst hfg
+          first
+            | (simp [upd] at hf; done)
+            | (simp [upd, Pc.inTree] at hf; done)
+        · simp only [upd, hfg, if_false] at hf
+          rcases n1 f hf with h1 | h1 | h1
+          · left; exact h1
+          · first
+              | (right; left; exact h1)
+              | (right; right; exact List.mem_append_right _ h1)
+          · first
+              | (right; right; exact h1)
+              | (right; right; exact List.mem_append_left _ h1)
+      · exact quiet_absurd (g := g) hhold (by first | (simp [upd]; done) | (simp [upd, Pc.inPass]; done))
+      · intro f hf
+        by_cases hfg : f = g
+        · subst hfg; simp [upd] at hf
+        · simp only [upd, hfg, if_false] at hf; exact n3 f hf
+      · intro hv
+        exact absurd hpc ((n4 hv).2.2 g r m)
+  | staleNext g x =>
+    simp only [step] at h; (repeat' split at h) <;> simp at h <;> subst h
+    all_goals
+      obtain ⟨r, m, hpc⟩ : ∃ r m, s.pc g = .sched r m := ⟨_, _, by assumption⟩
+      have hhold := hL.1 g (by simp [hpc, Pc.holds])
+      refine ⟨?_, ?_, ?_, ?_⟩
+      · intro f hf
+        by_cases hfg : f = g
+        · subst hfg
+          first
+            | (simp [upd] at hf; done)
+            | (simp [upd, Pc.inTree] at hf; done)
+        · simp only [upd, hfg, if_false] at hf
+          rcases n1 f hf with h1 | h1 | h1
+          · left; exact h1
+          · first
+              | (right; left; exact h1)
+              | (right; right; exact List.mem_append_right _ h1)
+          · first
+              | (right; right; exact h1)
+              | (right; right; exact List.mem_append_left _ h1)
+      · exact quiet_absurd (g := g) hhold (by first | (simp [upd]; done) | (simp [upd, Pc.inPass]; done))
+      · intro f hf
+        by_cases hfg : f = g
+        · subst hfg; simp [upd] at hf
+        · simp only [upd, hfg, if_false] at hf; exact n3 f hf
+      · intro hv
+        exact absurd hpc ((n4 hv).2.2 g r m)
+  | wState g f x =>
+    simp only [step] at h; (repeat' split at h) <;> simp at h <;> subst h
+    · exact invN_frame hI _ _ _ rfl rfl rfl rfl rfl (fun _ h => h) rfl
+        (quiet_frame rfl rfl (by simp_all [Pc.inPass]))
+        (by simp_all [Pc.inTree]) (by simp_all) (by simp_all)
+    all_goals
+      rename_i hpc hc
+      have hhold := hL.1 g (by simp [hpc, Pc.holds])
+      have hf : s.pc f = .parked := by simp_all
+      have hhd : s.cur.head? = some f := by simp_all
+      have hgf : g ≠ f := by intro h0; subst h0; simp [hf] at hpc
+      obtain ⟨rest, hcur⟩ : ∃ rest, s.cur = f :: rest := by
+        cases hcc : s.cur with
+        | nil => simp [hcc] at hhd
+        | cons a rest => simp [hcc] at hhd; subst hhd; exact ⟨rest, rfl⟩
+      refine ⟨?_, ?_, ?_, ?_⟩
+      · intro f' hf'
+        by_cases hfg : f' = g
+        · subst hfg
+          first
+            | (simp [upd] at hf'; done)
+            | (simp [upd, Pc.inTree] at hf'; done)
+        · by_cases hff : f' = f
+          · subst hff; simp [upd, hfg, Pc.inTree] at hf'
+          · simp only [upd, hfg, hff, if_false] at hf'
+            rcases n1 f' hf' with h1 | h1 | h1
+            · left; exact h1
+            · right; left; rw [hcur] at h1 ⊢; simp at h1 ⊢
+              rcases h1 with h1 | h1
+              · exact absurd h1 hff
+              · exact h1
+            · right; right; exact h1
+      · exact quiet_absurd (g := g) hhold (by first | (simp [upd]; done) | (simp [upd, Pc.inPass]; done))
+      · intro f' hf'
+        by_cases hfg : f' = g
+        · subst hfg; simp [upd] at hf'
+        · by_cases hff : f' = f
+          · subst hff; simp [upd, hfg] at hf'
+          · simp only [upd, hfg, hff, if_false] at hf'; exact n3 f' hf'
+      · intro hv
+        by_cases hnf : v.nextFirst = true
+        · obtain ⟨a, b, c⟩ := n4 hv
+          first
+            | (exact absurd hnf hc.1)
+            | (refine ⟨a, b, ?_⟩
+               intro g' r' n'
+               by_cases hfg : g' = g
+               · subst hfg; simp [upd]
+               · by_cases hff : g' = f
+                 · subst hff; simp [upd, hfg]
+                 · simp only [upd, hfg, hff, if_false]; exact c g' r' n')
+        · exact absurd hv hnf
+  | unlockLd g t =>
+    simp only [step] at h; (repeat' split at h) <;> simp at h <;> subst h
+    · -- the poller's wake pass is over: nothing in the tree is due
+      rename_i _ _ _ hc
+      obtain ⟨hpc, hnone, _⟩ := hc
+      refine ⟨?_, ?_, ?_, ?_⟩
+      · intro f hf
+        by_cases hfg : f = g
+        · subst hfg; simp [upd, Pc.inTree] at hf
+        · simp only [upd, hfg, if_false] at hf; exact n1 f hf
+      · intro _ y hy
+        exact removeLt_none hM.2.2.2.2 hnone y hy
+      · intro f hf
+        by_cases hfg : f = g
+        · subst hfg; simp [upd] at hf
+        · simp only [upd, hfg, if_false] at hf; exact n3 f hf
+      · intro hv
+        obtain ⟨a, b, c⟩ := n4 hv
+        refine ⟨a, b, ?_⟩
+        intro g' r n
+        by_cases hfg : g' = g
+        · subst hfg; simp [upd]
+        · simp only [upd, hfg, if_false]; exact c g' r n
+    · exact invN_same hI _ rfl rfl rfl rfl rfl rfl rfl rfl
+  | _ =>
+    simp only [step] at h <;> (repeat' split at h) <;> simp at h <;> (try subst h)
+    all_goals first
+      | exact hI
+      | exact invN_same hI _ rfl rfl rfl rfl rfl rfl rfl rfl
+      | exact invN_frame hI _ _ _ rfl rfl rfl rfl rfl (fun _ h => h) rfl
+          (quiet_frame rfl rfl (by simp_all [Pc.inPass]))
+          (by simp_all [Pc.inTree]) (by simp_all) (by simp_all)
+
+
 end LibfiberVerif.Sleep
